@@ -5,4 +5,8 @@ HERE=$(cd "$(dirname "$0")" && pwd)
 export CARGO_NET_OFFLINE=true
 mkdir -p "$HERE/.work" "$HERE/evidence" "$HERE/replays"
 cd "$HERE/mc"
-cargo build --offline --bins 2>&1 | tail -3
+# clap with the checkers' feature set (derive env wrap_help unicode string): packages are built
+# one by one so that cargo does not unify features with the default-feature pass below
+cargo build --offline -p checks --bins 2>&1 | tail -3
+# clap with its default features only (C04 second pass)
+cargo build --offline -p checks_default --bins 2>&1 | tail -1
